@@ -8,7 +8,7 @@ from mirsym.engine import PyCallable
 from mirsym.summaries.core import some, none, ok, err, deref_all
 from specs import dbmodel, depscheck, buildworld
 from specs.buildworld import BuildWorld, S_NEW, S_NEW2
-from specs.dbmodel import BASE, S1, S2, S3, S_MISSING, S_DIR
+from specs.dbmodel import BASE, S1, S2, S3, S4, S_MISSING, S_DIR
 
 T_NAME = b'tgt'
 TMP_NAME = b'tgt.redo.tmp'
@@ -394,6 +394,8 @@ CRASH_SPEC = {
     'after-unlink-before-commit': 'after:unlink:tgt',
     'after-copy-before-rename': 'before:rename:tgt',
     'after-script-creates-$3-before-rename': 'before:rename:tgt',
+    'after-script-writes-stdout-before-rename': 'before:rename:tgt',
+    'after-create-before-copy': 'before:rename:tgt',        # the copy is not a libc call we intercept; same leftovers one step later
     # the redo process is killed while the script runs, before the script did anything (the script kills its parent)
     'after-commit-before-job-start': 'script',
     'after-job-start-before-script-declares-dep': 'script',
@@ -428,17 +430,24 @@ def preamble_replay(scn, c):
     role = c['role'].split(':', 1)[1]
     w = c['witness']
     m = w.get('model', {})
-    row = (m.get('files') or {}).get(T_ID) or (m.get('files') or {}).get(str(T_ID)) or {}
+    row = w.get('row_before') or (m.get('files') or {}).get(T_ID) or (m.get('files') or {}).get(str(T_ID)) or {}
     dof = 'tgt.do' if 'tgt.do' in w.get('dofiles', []) or not w.get('dofiles') else 'default.do'
     exists = w.get('fs') is not None
     gen = bool(row.get('is_generated'))
     build_first = 'redo-ifchange tgt >/dev/null 2>&1 || { echo SETUP-FAILED; exit 97; }; : > ../ran.log; sleep 0.05'
+    ovr = bool(row.get('is_override'))
+    same_mtime = w.get('fs') is not None and w.get('stamp') is not None and w['fs'].split('-')[0] == w['stamp'].split('-')[0]
+    # a hand edit; with the recorded mtime kept when the witness says only the size differs (cp -p, rsync -t, touch -r)
+    edit = ('cp -p tgt ../ref; echo USER-EDIT > tgt; touch -r ../ref tgt' if same_mtime else 'echo USER-EDIT > tgt')
     if role == 'stale-tmp':
         setup = 'echo STALE-PARTIAL-OUTPUT > tgt.redo.tmp'
         want = {'rc1': '0', 'tgt1': 'v1', 'tmpfiles': '0'}
     elif role in ('touches-foreign-file', 'foreign-file-status', 'foreign-file-role'):
-        if gen:
-            setup = build_first + '\necho USER-EDIT > tgt'      # generated, then edited by hand
+        if gen and ovr:
+            # generated, edited by hand, noticed by an earlier run (marked overridden), then edited a second time
+            setup = build_first + '\necho FIRST-EDIT > tgt\nredo-ifchange tgt >/dev/null 2>&1\n: > ../ran.log; sleep 0.05\n' + edit
+        elif gen:
+            setup = build_first + '\n' + edit                      # generated, then edited by hand
         else:
             setup = 'echo USER-EDIT > tgt'                       # the user's own file; a rule matches its name
         want = {'rc1': '0', 'tgt1': 'USER-EDIT', 'ran1': '0', 'rc2': '0', 'tgt2': 'USER-EDIT', 'ran2': '0'}
@@ -502,6 +511,11 @@ def make_replay(chk, rep, scn):
                 return stale_now, 'real binaries, redo killed %s (%s): the next redo-ifchange exits %s and leaves the target at %r ' \
                                   '(a from-scratch build gives %r)' % (w['crash_point'], CRASH_SPEC[w['crash_point']],
                                                                       lines.get('recovery-rc'), lines.get('after-recovery'), want_rec)
+            if kind == 'stale-tmp':
+                broken = lines.get('recovery-rc') != '0' or lines.get('tmpfiles') != '0'
+                return broken, 'real binaries, redo killed %s (%s): the next redo-ifchange exits %s, %s temporary file(s) left%s' % (
+                    w['crash_point'], CRASH_SPEC[w['crash_point']], lines.get('recovery-rc'), lines.get('tmpfiles'),
+                    ''.join(' | ' + l for l in out.split('\n') if l.startswith('RECOVERY-LOG'))[:400])
             if kind in ('treated-as-foreign',):
                 return stale, 'real binaries, redo killed %s (%s): recovery exits %s, after a further source edit redo-ifchange exits %s and ' \
                               'the target is %r (a from-scratch build gives %r)' % (w['crash_point'], CRASH_SPEC[w['crash_point']],
@@ -646,7 +660,7 @@ def start_self_facts(chk, pid):
     st = {}
 
     def run():
-        w, R, env, psr = setup(eng, log=0)
+        w, R, env, psr = setup(eng, log=0, fs_choices=(None, S1, S2, S3, S4, S_DIR))
         for dn in DO_NAMES:
             k = eng.choose(2, 'exists ' + dn.decode())
             w.fs[tuple(dn)] = tuple(S1) if k else None
@@ -657,6 +671,7 @@ def start_self_facts(chk, pid):
         g, stp = w.cell(T_ID, 'is_generated'), w.cell(T_ID, 'stamp')
         if stp is None:
             eng.assume(z3.Not(g))
+        st['row0'] = dict(w.files[T_ID])       # the row before the job (lazy cells stay lazy until the code looks at them)
         st.update(w=w, R=R, gen=g, ovr=w.cell(T_ID, 'is_override'), stamp=stp, fs0=w.fs_stamp(tuple(T_NAME)),
                   dofiles=[dn for dn in DO_NAMES if w.fs_stamp(tuple(dn)) is not None])
         w.effects.clear()
@@ -673,6 +688,9 @@ def start_self_facts(chk, pid):
         def cand(role, what, extra=None):
             wit2 = dict(wit)
             wit2['model'] = depscheck.model_of(eng, w, R, [T_ID], extra)
+            m = eng.model(extra)
+            if m is not None:
+                wit2['row_before'] = concretize_row(m, st['row0'])
             return {'role': 'start_self:' + role, 'kind': 'buildjob', 'what': 'start_self: ' + what, 'witness': wit2}
         if outcome == 'panic':
             return cand('panic', 'aborts: %s' % val.msg)
